@@ -1821,6 +1821,20 @@ func (db *DB) verifyWithExecutor(ctx context.Context, exec *syncExecutor) (info 
 			"salt1", salt1,
 			"salt2", salt2)
 
+		// The frame before our position is intact, so the new generation is
+		// shorter than the old cursor. If the old generation continued past
+		// that position, those frames were checkpointed and the WAL restarted
+		// without their ever being copied (litestream was stopped or lagging):
+		// continuing from the new header would silently drop them.
+		if fhdr, ferr := readWALFileAt(db.WALPath(), info.offset, WALFrameHeaderSize); ferr == nil &&
+			binary.BigEndian.Uint32(fhdr[8:]) == dec.Header().WALSalt1 &&
+			binary.BigEndian.Uint32(fhdr[12:]) == dec.Header().WALSalt2 {
+			info.offset = WALHeaderSize
+			info.salt1, info.salt2 = salt1, salt2
+			info.reason = "unsynced frames of previous wal generation after last position, snapshotting"
+			return info, nil
+		}
+
 		info.offset = WALHeaderSize
 		info.salt1, info.salt2 = salt1, salt2
 
